@@ -2,6 +2,7 @@ import PyPhysim.Proofs.C19Final
 import PyPhysim.Proofs.C19Sec3
 import PyPhysim.Proofs.C19State
 import PyPhysim.Proofs.C19Robust
+import PyPhysim.Proofs.C19Users
 import PyPhysim.Generated.C19Tables
 
 /-!
@@ -517,6 +518,71 @@ theorem rect_contains_scale_invariant (k : α) (hk : 0 < k) (r : Rect α) (u p :
       = rectInside r u p :=
   rectInside_scale k hk r u p
 end robustness
+
+/-! ## every argument of the user-placement entry points has its documented effect -/
+
+section placement
+variable {α : Type} [Field α] [LinearOrder α] [IsStrictOrderedRing α] [Circ α]
+
+/-- **`CellBase.add_random_users(num_users, color, min_dist_ratio)`**: for every stream of draws,
+    exactly `num_users` users are placed, each inside the cell and not closer to the centre than
+    `min_dist_ratio·radius`. -/
+theorem cell_random_users_postcondition (c : CellGeom α) (ratio : α) (n : ℕ) (us rest : List (α × α))
+    (ps : List (Pt α)) (h : addRandomUsers c ratio n us = some (ps, rest)) :
+    ps.length = n ∧ ∀ p ∈ ps, c.inside p = true ∧ ¬ (dist c.pos p < ratio * c.radius) :=
+  addRandomUsers_spec c ratio n us ps rest h
+
+/-- **`Cluster.add_random_users` honours every argument, for every argument form** (one id, a list of
+    ids, all cells; scalar or per-cell `num_users`, `user_color`, `min_dist_ratio`): for every stream of
+    draws, every placed user belongs to a request `(id, num, colour, ratio)` of the call, lies in THAT
+    cell (inside it, not closer to its centre than THAT request's `ratio·radius`), carries THAT
+    request's colour; the number of users is the sum of the requested numbers, also cell by cell. -/
+theorem cluster_random_users_postcondition (cells : List (CellGeom α)) (ids : Option (List ℕ)) (nums : Arg ℕ)
+    (colors : Arg (Option String)) (ratios : Arg α) (us rest : List (α × α)) (pl : List (Placed α))
+    (h : clusterAddRandomUsers cells ids nums colors ratios us = .ok (some (pl, rest))) :
+    let reqs := mkReqs (match ids with | none => (List.range cells.length).map (· + 1) | some l => l)
+      nums colors ratios
+    pl.length = (reqs.map (·.num)).sum ∧
+    (∀ u ∈ pl, ∃ r ∈ reqs, ∃ c, cells[r.id - 1]? = some c ∧ u.cell = r.id - 1 ∧ u.color = r.color ∧
+        c.inside u.pos = true ∧ ¬ (dist c.pos u.pos < r.ratio * c.radius)) ∧
+    ∀ i, (pl.filter (fun u => u.cell = i)).length = ((reqs.filter (fun r => r.id - 1 = i)).map (·.num)).sum := by
+  intro reqs
+  have h' : clusterPlace cells reqs us = .ok (some (pl, rest)) := by
+    cases ids <;> exact h
+  obtain ⟨h1, h2, h3⟩ := clusterPlace_spec cells reqs us rest pl h'
+  refine ⟨h1, ?_, h3⟩
+  intro u hu
+  obtain ⟨r, hr, c, hc, _, hcell, hcol, hok⟩ := h2 u hu
+  exact ⟨r, hr, c, hc, hcell, hcol, hok.1, hok.2⟩
+
+/-- the requests carry the arguments position by position: request `k` has the `k`-th id and the
+    `k`-th (or the only) number, colour and ratio — a scalar `min_dist_ratio` reaches every cell -/
+theorem cluster_requests_carry_arguments (ids : List ℕ) (nums : Arg ℕ) (colors : Arg (Option String))
+    (ratios : Arg α) (k : ℕ) (r : Req α) (h : (mkReqs ids nums colors ratios)[k]? = some r) :
+    ids[k]? = some r.id ∧ (nums.expand ids.length)[k]? = some r.num ∧
+    (colors.expand ids.length)[k]? = some r.color ∧ (ratios.expand ids.length)[k]? = some r.ratio ∧
+    (∀ x, ratios = .one x → r.ratio = x) ∧ (∀ x, nums = .one x → r.num = x) ∧ (∀ x, colors = .one x → r.color = x) := by
+  obtain ⟨a, b, c, d⟩ := mkReqs_getElem ids nums colors ratios k r h
+  refine ⟨a, b, c, d, ?_, ?_, ?_⟩
+  · intro x hx; subst hx; exact expand_one x _ k _ d
+  · intro x hx; subst hx; exact expand_one x _ k _ b
+  · intro x hx; subst hx; exact expand_one x _ k _ c
+
+/-- **cluster path = cell path**: placing through the cluster in an existing cell is that cell's
+    `add_random_users(num, colour, ratio)` with the same arguments on the same draws; a cell id that
+    does not exist raises `IndexError`. -/
+theorem cluster_path_is_cell_path (cells : List (CellGeom α)) (r : Req α) (us : List (α × α)) :
+    (∀ c, 1 ≤ r.id → cells[r.id - 1]? = some c →
+      clusterPlaceOne cells r us = .ok ((addRandomUsers c r.ratio r.num us).map (fun pr =>
+        (pr.1.map (fun p => { cell := r.id - 1, pos := p, color := r.color }), pr.2)))) ∧
+    (r.id = 0 ∨ cells.length < r.id → clusterPlaceOne cells r us = .error .IndexError) :=
+  ⟨fun c h1 hc => clusterPlaceOne_eq_cell_path cells r c us h1 hc, clusterPlaceOne_bad_id cells r us⟩
+end placement
+
+/-- non-vacuity: two ids, a scalar number of users and per-cell ratios give two requests -/
+example :
+    (mkReqs [1, 2] (.one 1) (.one none) (.many [(0 : ℚ), 1/2])).map (fun r => (r.id, r.num, r.ratio))
+      = [(1, 1, 0), (2, 1, 1/2)] := by decide +kernel
 
 /-- the hypothesis `0 < sqrt 2` of the state theorems holds for the real scalar -/
 theorem sqrt_two_pos_real : 0 < (Circ.sqrt ((2 : ℕ) : ℝ) : ℝ) := by
